@@ -181,7 +181,7 @@ def run(tier):
             continue
         if a["holds"]:
             n_rows_all_n += 1
-            chk.count("V2:equation-holds-on-all-typed-states")
+            chk.count(str(a.get("validator", "V2")) + ":equation-holds-on-all-typed-states")
             continue
         ce = a.get("counterexample")
         rec = {"case": c, "row": r, "kind": "one-step-on-typed-state", "counterexample": ce, "goal": sysm["goal"]}
